@@ -299,7 +299,18 @@ def probe():
     pyscript = Box(twin="local-twin", lone="local-lone")
     out["local_over_service"] = pyscript.twin
     out["local_over_state"] = pyscript.lone
+    out["enclosing_var_over_state"] = holder()
     vf.rec("probe", out=out)
+
+# a variable of an enclosing function, used by the inner function only through attribute chains (one and two levels): it
+# still wins over a state variable / attribute of that name
+def holder():
+    sensor = Box(c16=Box(unit="enclosing-unit"), top="enclosing-top")
+    def inner():
+        return sensor.c16.unit
+    def inner1():
+        return sensor.top
+    return [inner(), inner1()]
 '''
 
 
@@ -311,6 +322,8 @@ def run_priority(case):
         w.hass.states.async_set("pyscript.twin", "state-twin", {})
         w.hass.states.async_set("pyscript.lone", "state-lone", {})
         w.hass.states.async_set("glob.item", "state-glob", {})
+        w.hass.states.async_set("sensor.c16", "state-c16", {"unit": "state-unit"})
+        w.hass.states.async_set("sensor.top", "state-top", {})
 
     async def main(w):
         await w.hass.services.async_call("pyscript", "probe", {}, blocking=True)
@@ -319,10 +332,10 @@ def run_priority(case):
     w, _ = run_world(main, files={"prio.py": PRIORITY_SCRIPT}, legacy=case["legacy"], pre_setup=pre, extra_functions={"vf.Box": Box}, keep=True)
     viol = []
     pr = [r for r in w.rec if r["tag"] == "probe"]
-    want = {"service_over_state": True, "plain_state": "state-lone", "global_var_over_state": "global-attr", "local_over_service": "local-twin", "local_over_state": "local-lone"}
+    want = {"service_over_state": True, "plain_state": "state-lone", "global_var_over_state": "global-attr", "local_over_service": "local-twin", "local_over_state": "local-lone", "enclosing_var_over_state": ["enclosing-unit", "enclosing-top"]}
     if not pr or pr[0]["out"] != want:
         viol.append({"mech": "name_priority_violated", "msg": f"expected {want} got {pr and pr[0]['out']} errors={w.logs(level='ERROR')[:1]}"})
-    return {"verdict": "violated" if viol else "held", "violations": viol, "nontrivial": True, "obs": {"priority_checks": 5, "histories": 0}, "sig": f"priority|{case['legacy']}"}
+    return {"verdict": "violated" if viol else "held", "violations": viol, "nontrivial": True, "obs": {"priority_checks": 6, "histories": 0}, "sig": f"priority|{case['legacy']}"}
 
 
 def run_case(case):
